@@ -548,6 +548,24 @@ impl std::io::Write for ShortWriter {
     }
 }
 
+/// A sink that takes at most `chunk` bytes per call and `cap` bytes in all, then answers Ok(0) (as a full
+/// `&mut [u8]` does); the model of it is `write_all_sink` in coq/Model/Run.v.
+struct BoundedSink {
+    data: Vec<u8>,
+    cap: usize,
+    chunk: usize,
+}
+impl std::io::Write for BoundedSink {
+    fn write(&mut self, buf: &[u8]) -> std::io::Result<usize> {
+        let n = buf.len().min(self.chunk).min(self.cap - self.data.len());
+        self.data.extend_from_slice(&buf[..n]);
+        Ok(n)
+    }
+    fn flush(&mut self) -> std::io::Result<()> {
+        Ok(())
+    }
+}
+
 /// Oracle 1 (harness only, op 99): the bit iterator of a vector of 2^32 + 8 bits (all zero but two) against
 /// the same calls on a range iterator over the indices.  Lazily zeroed storage; every call used is O(1).
 fn huge_iter_oracle<A: BitVector>() -> bool {
@@ -811,6 +829,43 @@ fn unary<A: Extra + Extend<Bit>>(c: &Case) -> Res {
                     Err(e) => io_code(&e),
                 }
             }
+        }
+        38 => {
+            // write into a sink with room for arg 1 bytes in all, taking at most arg 2 bytes per write() call, which
+            // answers Ok(0) once full.  form 0: the harness's own sink; 1: std's `&mut [u8]`; 2: std's Cursor<&mut [u8]>
+            let cap = c.a(1) as usize;
+            let (r, got): (std::io::Result<()>, Vec<u8>) = match c.form {
+                1 => {
+                    let mut store = vec![0u8; cap];
+                    let (r, left) = {
+                        let mut sl: &mut [u8] = &mut store[..];
+                        let r = a.write(&mut sl, endian(c.a(0)));
+                        (r, sl.len())
+                    };
+                    store.truncate(cap - left);
+                    (r, store)
+                }
+                2 => {
+                    let mut store = vec![0u8; cap];
+                    let (r, pos) = {
+                        let mut cur = std::io::Cursor::new(&mut store[..]);
+                        let r = a.write(&mut cur, endian(c.a(0)));
+                        (r, cur.position() as usize)
+                    };
+                    store.truncate(pos);
+                    (r, store)
+                }
+                _ => {
+                    let mut w = BoundedSink { data: vec![], cap, chunk: (c.a(2).min(1 << 40)) as usize };
+                    let r = a.write(&mut w, endian(c.a(0)));
+                    (r, w.data)
+                }
+            };
+            let st = match r {
+                Ok(()) => 0,
+                Err(_) => 1,
+            };
+            Res::Ok(vec![Item::L(got.iter().map(|b| *b as u128).collect()), Item::N(st)])
         }
         24 => n1(bit_n(a.get(c.a(0) as usize))),
         25 => n1(obit_n(a.first())),
